@@ -34,3 +34,9 @@ pub use popcount::{popcount_word, popcount_word_portable, popcount_words};
 pub use rank::RankDirectory;
 pub use scan::{block_popcount_portable, scan_select, scan_select_scalar, select_from, BLOCK};
 pub use select::{SampleWord, SelectIndex};
+
+// Verification hook: the AVX2 block-popcount kernel lives in the private `scan`
+// module and is otherwise reachable only through a >= 17-word `scan_select`.
+#[cfg(all(feature = "verif-hooks", target_arch = "x86_64"))]
+#[doc(hidden)]
+pub use scan::block_popcount_avx2 as verif_block_popcount_avx2;
